@@ -25,7 +25,8 @@ prop("C04", opts={"memprop": "C04", "shadowprop": "C04"},
      quick_mix=[("c04", "default", 2), ("c04", "small", 1), ("c04+af", "default", 1), ("c15h", "heapcap", 0.7)],
      quick_s=25, thorough_s=600,
      rule="seeded sequences of add/remove/change/set/call/get by several peers over a small adversarial path universe, compared after every step with a reference map through responses, "
-          "an observer's fetch-all replica and get results; non-trivial: >=3 notifications and >=1 refused request; distinct by trace hash",
+          "an observer's fetch-all replica and get results; plus the same sequences with 1-4 allocations made to fail (c04+af) and sequences that cross the 96 KB heap cap by ordinary activity (c15h on variant heapcap): after a failed allocation every get result "
+          "(and a final get-all by a fresh connection) must equal the reference map with each interrupted request either carried out or not - a request answered with an error must not have changed a value. non-trivial: >=3 notifications and >=1 refused request; distinct by trace hash",
      nontrivial=[["notify_add>=3", "add_existing_path"], ["notify_add>=3", "change_not_owner"], ["notify_add>=3", "remove_not_owner"], ["notify_add>=3", "setcall_wrong_kind"], ["notify_add>=3", "set_on_fetchonly"]],
      required_probes=["add_existing_path", "change_not_owner", "remove_not_owner", "change_on_method", "setcall_wrong_kind", "set_on_fetchonly", "empty_path", "get"])
 
@@ -116,7 +117,8 @@ prop("C12", also=["C10/.*"],
      rule="seeded valid upgrades in many spellings (header order and case, extra and repeated headers, several offered protocols, HTTP/1.1 and above) followed by frame sequences over the header space (every opcode, FIN/RSV/MASK combination, "
           "non-minimal length encodings, payload lengths around 0/125/126, pings and pongs with arbitrary payloads, close frames of every status class with valid and invalid UTF-8 reasons, fragmented data and control frames) mixed with JSON-RPC "
           "traffic of raw and WebSocket peers under random segmentation; oracle: an RFC 6455 expectation table written for the harness (101 + accept digest + subprotocol; server frames unmasked, complete, minimal; pong payload; close status 1002/1007; "
-          "close frame before the connection ends; nothing after a close frame) and the same reference model for JSON-RPC on both transports. non-trivial: an upgrade completed and at least one protocol-level frame was judged; distinct by trace hash",
+          "close frame before the connection ends; nothing after a close frame) and the same reference model for JSON-RPC on both transports. A share of the runs uses the echo endpoint of sim/c19_harness.c (the real websocket.c with frame callbacks registered, "
+          "which the shipped daemon never does): fragmented messages are reassembled there, a FIN continuation frame that continues nothing must be refused with 1002, and on the variant with 70 000-byte messages server frames cross the 16/64-bit length encodings. non-trivial: an upgrade completed and at least one protocol-level frame was judged; distinct by trace hash",
      nontrivial=[["ws_upgraded", "ws_ping"], ["ws_upgraded", "ws_violation_1002"], ["ws_upgraded", "ws_close_valid"], ["ws_upgraded", "ws_violation_1007"], ["ws_upgraded", "ws_fragment"]],
      required_probes=["ws_upgraded", "ws_ping", "ws_pong_matched", "ws_pong_in", "ws_close_valid", "ws_violation_1002", "ws_violation_1007", "ws_violation_1002_or_1007", "ws_fragment", "ws_binary", "ws_close_from_daemon:1002", "ws_close_from_daemon:1007"])
 
@@ -166,7 +168,10 @@ prop("C15", kind="c15", level="fault_enumeration", corpus=46,
           "raw/unix/WebSocket connect and teardown, failed handshakes, routed requests with reply, timeout and disconnects, batches, authentication) is executed once to count its allocations N, then once for every k in 1..N with exactly the k-th "
           "allocation (malloc/calloc/realloc of the daemon, cJSON and zlib included) returning NULL. Oracle: no sanitizer report or crash; start-up failures end in a clean non-zero exit; until the fault the reference model, afterwards at most one response "
           "per request id and none unsolicited; requests sent after the fault's event-loop turn are answered; a fresh client is served at the end; arena, accounted heap, peer count and descriptors are back at the idle baseline after all connections closed and empty at exit. "
-          "quick: the whole corpus with every k on the upstream configuration; thorough: the whole corpus on four configuration variants (table sizes, buffer sizes, event-batch size). non-trivial: the failed allocation was reached; a case is a (scenario, k) pair",
+          "after the failure every get result, and a final get-all by a fresh connection, must equal the reference model's element image with each interrupted request either carried out or not (forked model, sim/world_shadow.cpp). "
+          "quick: the whole corpus with every k on the upstream configuration; thorough: the whole corpus on four configuration variants (table sizes, buffer sizes, event-batch size). Second phase (25 s quick, 500 s thorough): random multi-fault runs "
+          "(base/c01/c03/c04/c05/c16 plans with 1-4 failing allocations at drawn distances after start-up) and heap-cap runs (variant heapcap, 96 KB: a filler connection takes 55-98 % of the heap, ordinary traffic crosses the cap; the daemon's own refusal is handled like an injected failure). "
+          "non-trivial: the failed allocation was reached; a case is a (scenario, k) pair",
      level_text="single-fault enumeration: for each of 46 corpus scenarios every allocation performed during the run is made to fail in turn (exhaustive for the corpus when the budget suffices; the evidence says whether it did); the daemon's real main() runs on the simulated kernel with the deterministic arena as the fault seam",
      technique="deterministic simulation with fault injection: exhaustive single-allocation-failure enumeration over a scenario corpus, arena allocator as the seam, ledger/model oracles, exact replay",
      nontrivial=[])
